@@ -28,6 +28,9 @@ CLAIMS = {
     "C17": ("property-based testing (rapid) with a reflection-driven populator over the struct definitions; equality + aliasing (scramble) oracle",
             "Every type with a Copy method is populated field by field through reflection (future fields are covered automatically; an unpopulatable field fails the check), copied, compared structurally and probed for aliasing by scrambling every container of the copy (and of the original) while snapshotting the other side.",
             "4/C17", "Constraints, addresses and cty values are exempt from the aliasing probe as the statement says. Exploration only."),
+    "C06": ("property-based testing (rapid): validity predicate over every completion candidate at every cursor; constructed populations around the limit with an exact count; metamorphic left-out probe",
+            "Generated-input search with a validity predicate per candidate (edit range vs cursor, tab-stop syntax and numbering) and per list (limit of 100). The complete-flag clause is decided exactly on constructed populations of known size (attributes, block types, labels, functions, object attributes, reference targets, hook candidates; 0..250 entries, with and without typed prefix and extensions) and metamorphically on generated worlds (a complete list at the limit must contain everything offered after one more typed character).",
+            "4/C06", TRUST + " Hook-provided insert text is caller content and not snippet-checked."),
 }
 
 def main():
